@@ -12,17 +12,26 @@ echo "$V" | grep -q "demo_without=\[test result: ok" || { echo "EVAL $ID: demo d
 echo "$V" | grep -q "demo_with=\[test result: FAILED" || { echo "EVAL $ID: demo does not fail with the change - discarded"; exit 1; }
 echo "$V" | grep -q "suite_with=\[46 passed 0 failed\]" || { echo "EVAL $ID: existing suite does not pass with the change - discarded"; exit 1; }
 cd /verif
-[ -z "$(git -C /repo status --short)" ] || { echo "/repo not clean"; exit 2; }
-git -C /repo apply "$SRC/patch.diff" || { echo "EVAL $ID: patch does not apply to /repo"; exit 1; }
+if [ -n "$SCRATCH" ]; then
+  # evaluate in a scratch worktree + scratch copy of /verif (leaves /repo alone)
+  S=/tmp/scratch_eval
+  /verif/tools/scratch_eval.sh none >/dev/null 2>&1
+  git -C $S/repo apply "$SRC/patch.diff" || { echo "EVAL $ID: patch does not apply"; exit 1; }
+  CHECKDIR=$S/verif
+else
+  [ -z "$(git -C /repo status --short)" ] || { echo "/repo not clean"; exit 2; }
+  git -C /repo apply "$SRC/patch.diff" || { echo "EVAL $ID: patch does not apply to /repo"; exit 1; }
+  CHECKDIR=/verif
+fi
 RES=""
 for P in $PROP $EXTRA; do
-  out=$(./check "$P" quick 2>&1); rc=$?
+  out=$(cd $CHECKDIR && ./check "$P" quick 2>&1); rc=$?
   sig=$(echo "$out" | grep -m1 "signature \[" | sed 's/^ *//')
   vio=$(echo "$out" | grep -m1 "^violation:" | cut -c1-300)
   RES="$RES{\"check\":\"$P quick\",\"exit\":$rc,\"first_signature\":$(python3 -c 'import json,sys; print(json.dumps(sys.argv[1]))' "$sig"),\"violation\":$(python3 -c 'import json,sys; print(json.dumps(sys.argv[1]))' "$vio")},"
   echo "EVAL $ID: ./check $P quick -> exit $rc  $sig"
 done
-git -C /repo checkout -- .
+if [ -n "$SCRATCH" ]; then git -C /tmp/scratch_eval/repo checkout -- . ; else git -C /repo checkout -- . ; fi
 [ -z "$(git -C /repo status --short)" ] || echo "WARNING /repo not clean after undo"
 mkdir -p "$DST"
 cp "$SRC/patch.diff" "$DST/patch.diff"; cp "$SRC/demo_test.rs" "$DST/demo_test.rs"; cp "$SRC/notes.md" "$DST/seeder_notes.md" 2>/dev/null
